@@ -49,12 +49,20 @@ func libGroup(g int) (dh.DHType, error) {
 func bi(b []byte) *big.Int { return new(big.Int).SetBytes(b) }
 
 func c09Pub(g dh.DHType, x *big.Int) (out []byte, err error) {
-	err = probe.Try(func() error { out = g.GetPublicValue(new(big.Int).Set(x)); return nil })
+	arg := new(big.Int).Set(x)
+	err = probe.Try(func() error { out = g.GetPublicValue(arg); return nil })
+	if err == nil && arg.Cmp(x) != 0 {
+		err = fmt.Errorf("GetPublicValue modified its exponent argument")
+	}
 	return
 }
 
 func c09Shared(g dh.DHType, x, y *big.Int) (out []byte, err error) {
-	err = probe.Try(func() error { out = g.GetSharedKey(new(big.Int).Set(x), new(big.Int).Set(y)); return nil })
+	ax, ay := new(big.Int).Set(x), new(big.Int).Set(y)
+	err = probe.Try(func() error { out = g.GetSharedKey(ax, ay); return nil })
+	if err == nil && (ax.Cmp(x) != 0 || ay.Cmp(y) != 0) {
+		err = fmt.Errorf("GetSharedKey modified one of its arguments")
+	}
 	return
 }
 
@@ -70,7 +78,7 @@ func c09Oracle(in c09In) probe.Outcome {
 	nontrivial := false
 	pub, err := c09Pub(g, x)
 	if err != nil {
-		return probe.Fail("GetPublicValue panics: %v", err)
+		return probe.Fail("GetPublicValue: %v", err)
 	}
 	if len(pub) != n {
 		return probe.Fail("public value has %d octets, want exactly %d", len(pub), n)
@@ -85,7 +93,7 @@ func c09Oracle(in c09In) probe.Outcome {
 	}
 	sh, err := c09Shared(g, x, y)
 	if err != nil {
-		return probe.Fail("GetSharedKey panics: %v", err)
+		return probe.Fail("GetSharedKey: %v", err)
 	}
 	if len(sh) != n {
 		return probe.Fail("shared secret has %d octets, want exactly %d", len(sh), n)
@@ -108,12 +116,12 @@ func c09Oracle(in c09In) probe.Outcome {
 	// agreement between two parties
 	pub2, err := c09Pub(g, x2)
 	if err != nil {
-		return probe.Fail("GetPublicValue panics: %v", err)
+		return probe.Fail("GetPublicValue: %v", err)
 	}
 	s12, err1 := c09Shared(g, x, bi(pub2))
 	s21, err2 := c09Shared(g, x2, bi(pub))
 	if err1 != nil || err2 != nil {
-		return probe.Fail("GetSharedKey panics: %v %v", err1, err2)
+		return probe.Fail("GetSharedKey: %v %v", err1, err2)
 	}
 	if !bytes.Equal(s12, s21) || len(s12) != n {
 		return probe.Fail("the two parties compute different shared secrets")
@@ -320,7 +328,7 @@ var c09Table = probe.Define("C09", "prime-identity", func(t *rapid.T) c09In { pa
 	}{{new(big.Int).Sub(P, one), new(big.Int).Sub(P, one), "p-1"}, {P, big.NewInt(0), "p"}, {new(big.Int).Add(P, one), one, "p+1"}} {
 		got, err := c09Shared(g, one, c.y)
 		if err != nil {
-			return probe.Fail("GetSharedKey panics: %v", err)
+			return probe.Fail("GetSharedKey: %v", err)
 		}
 		if !bytes.Equal(got, ref.LeftPad(c.want, n)) {
 			return probe.Fail("GetSharedKey(1, %s) is not %s mod p for the RFC prime: the group's modulus differs from RFC 2409 / RFC 3526", c.what, c.what)
